@@ -611,6 +611,12 @@ func (p *pinner) isPinnedWithType(ctx context.Context, c cid.Cid, mode ipfspinne
 	case ipfspinner.Internal:
 		return "", false, nil
 	case ipfspinner.Indirect:
+		// A recursive root is not indirect, even below another root (same
+		// rule as CheckIfPinnedWithType).
+		has, err := p.cidRIndex.HasAny(ctx, cidKey)
+		if err != nil || has {
+			return "", false, err
+		}
 	case ipfspinner.Any:
 		has, err := p.cidRIndex.HasAny(ctx, cidKey)
 		if err != nil {
